@@ -68,10 +68,9 @@ func compareFuncForSymbol() generic.CompareFunc[Symbol] {
 
 // hashFuncForSymbol creates a HashFunc for hashing symbols.
 func hashFuncForSymbol() hash.HashFunc[Symbol] {
-	h := fnv.New64()
-
 	return func(s Symbol) uint64 {
-		h.Reset()
+		// A hasher per call: this function is shared by all instances and goroutines.
+		h := fnv.New64()
 		_, _ = WriteSymbol(h, s) // Hash.Write never returns an error
 		return h.Sum64()
 	}
